@@ -60,7 +60,7 @@ func main() {
 
 func check(id string, args []string) (code int) {
 	tier := os.Getenv("VERIF_TIER")
-	noEv := false
+	noEv, dump := false, false
 	for i := 0; i < len(args); i++ {
 		switch args[i] {
 		case "--tier":
@@ -70,6 +70,8 @@ func check(id string, args []string) (code int) {
 			}
 		case "--no-evidence":
 			noEv = true
+		case "--dump":
+			dump = true
 		case "--replay":
 			i++ // replay re-runs the whole (deterministic) check and prints the derivation
 		}
@@ -103,6 +105,11 @@ func check(id string, args []string) (code int) {
 	}()
 	p.Build(c)
 	c.ScopeProblems()
+	if dump {
+		for _, o := range c.Set.Obls {
+			fmt.Printf("OBL %v %s [%s] %s: %s\n", o.OK, o.Key, o.Config, o.Pos, o.Detail)
+		}
+	}
 	known, err := report.LoadKnown(filepath.Join(report.VerifDir(), "known_findings.json"))
 	if err != nil {
 		c.Set.Problem("known_findings.json: %v", err)
